@@ -104,7 +104,8 @@ Inductive lexeme : Type :=
 | LSStr (op cl : N) (items : list sitem)                (* '...' (also the typographic single quotes) *)
 | LQId (op cl : N) (items : list qitem)                 (* double-quoted identifier (also the typographic double quotes) *)
 | LBId (items : list bitem)                             (* `...` *)
-| LDollar (tag : list N) (body : list N).               (* $tag$ body $tag$ *)
+| LDollar (tag : list N) (body : list N)                (* $tag$ body $tag$ *)
+| LTriple (rs : list N).                                (* triple-quoted string: three quotes, text, three quotes; no escapes *)
 
 Definition is_word (l : lexeme) : bool := match l with LWord _ => true | _ => false end.
 
@@ -141,6 +142,7 @@ Definition render (l : lexeme) : list N :=
   | LQId op cl items => encode_rune op ++ flat_map qitem_text items ++ encode_rune cl
   | LBId items => 96 :: flat_map bitem_text items ++ [96]
   | LDollar tag body => dollar_tag tag ++ body ++ dollar_tag tag
+  | LTriple rs => [39; 39; 39] ++ utf8 rs ++ [39; 39; 39]
   end.
 
 (* ---- decoded values ---- *)
@@ -172,6 +174,7 @@ Definition tok_of (l : lexeme) : rtok :=
   | LQId op cl items => (TT_DoubleQuotedString, flat_map qitem_value items, 34)
   | LBId items => (TT_Identifier, flat_map bitem_value items, 96)
   | LDollar tag body => (TT_DollarQuotedString, body, 0)
+  | LTriple rs => (TT_TripleSingleQuotedString, utf8 rs, 39)
   end.
 
 (* the same after normalisation: a keyword carries its canonical upper-case spelling *)
@@ -217,6 +220,15 @@ Fixpoint no_early_close (closing body : list N) : bool :=
   | _ :: tl => negb (is_prefix closing (body ++ closing)) && no_early_close closing tl
   end.
 
+(* three quotes in a row do not occur in rs followed by the closing three quotes before the end of rs *)
+Definition starts3 (l : list N) : bool :=
+  match l with a :: b :: c :: _ => (a =? 39) && (b =? 39) && (c =? 39) | _ => false end.
+Fixpoint no_tclose (rs : list N) : bool :=
+  match rs with
+  | [] => true
+  | _ :: tl => negb (starts3 (rs ++ [39; 39; 39])) && no_tclose tl
+  end.
+
 Definition lex_ok (l : lexeme) : bool :=
   match l with
   | LOp e => existsb (op_eqb e) all_ops
@@ -243,6 +255,7 @@ Definition lex_ok (l : lexeme) : bool :=
   | LBId items => forallb bitem_ok items
   | LDollar tag body =>
       (match tag with [] => true | t0 :: _ => word_shape tag && is_ident_part t0 end) && no_early_close (dollar_tag tag) body
+  | LTriple rs => forallb scalar rs && no_tclose rs
   end.
 
 (* ---- adjacency: the text r that follows the lexeme cannot extend it, and the lexeme with what follows does not
@@ -266,6 +279,7 @@ Definition class_follow (l : lexeme) (r : list N) : bool :=
   | LQId op cl items => next_rune_not (fun x => normalize_quote x =? 34) r
   | LBId items => next_byte_not [96] r
   | LDollar tag body => true
+  | LTriple rs => true
   end.
 Definition follow_ok (l : lexeme) (r : list N) : bool := class_follow l r && clean (render l ++ r).
 
